@@ -89,11 +89,12 @@ Step ==
             dA   == ~ok /\ DevF17a(e, s, cap, lost)
             dBl  == DevF17bLoad(e, s)
             dB   == ~ok /\ (taint \/ dBl \/ DevF17bEnum(e, s, cap))
-            inv  == e.obs.len <= cap /\ Len(e.obs.order) <= cap
+            capn == CapAfter(cap, e)
+            inv  == e.obs.len <= capn /\ Len(e.obs.order) <= capn
             good == (ok \/ dA \/ dB) /\ inv /\ seqok
         IN /\ res' = e.res
            /\ s' = IF ok \/ (dB /\ ~taint /\ ~dBl) THEN x.st ELSE Resync(e, x)
-           /\ cap' = cap
+           /\ cap' = capn
            /\ seq' = e.seq
            /\ lost' = LostAfter(e, s, lost)
            /\ taint' = (taint \/ dBl)
